@@ -46,7 +46,7 @@ def _module(mod, unit_name, per, naive):
     tag = ("naive_" if naive else "utc_") + unit_name
     path = ("naive::datetime::serde::" if naive else "datetime::serde::") + unit_name
 
-    @obligation(prop="C20", tier="quick", timeout=900, features="std,serde",
+    @obligation(prop="C20", tier="quick", timeout=900, features="std,serde", probe="serde_" + tag,
                 desc=f"{path}: visit_i64 (all i64) and visit_u64 (all u64) return Ok exactly when the count denotes a representable instant, and then exactly that instant at the module's precision (floor split for negative counts; u64 counts beyond i64 are rejected, never wrapped); serialize writes exactly the module's integer timestamp of the value (or fails where documented: nanoseconds outside the i64 window); the _option variant writes none/some accordingly",
                 bounds="all i64 / all u64 counts; all non-leap UTC date-times for serialize; serde framework abstracted (visitor called directly, Serializer methods return what they were given); day-number kernels via their C01 contracts",
                 outside="serde_json / bincode themselves; error message formatting (closures building the error are not executed)")
@@ -68,6 +68,7 @@ def _module(mod, unit_name, per, naive):
         o.reachable("i64_ok_negative", z3.And(ok, v.e < 0))
         if per != G:
             o.reachable("i64_err", z3.Not(ok))
+        flat = [z3.If(ok, 1, 0), z3.If(ok, Y, 0), z3.If(ok, O, 0), z3.If(ok, tsec, 0), z3.If(ok, tfrac, 0)]
         o.claim("visit_i64_ok_iff_representable", ok == z3.And(day >= LO, day <= HI))
         o.claim("visit_i64_instant", z3.Implies(ok, z3.And(dayno(Y, O) == day, tsec == s % DAY, tfrac == sub * (G // per))))
         # --- visit_u64
@@ -84,6 +85,7 @@ def _module(mod, unit_name, per, naive):
             o.reachable("u64_err_huge", z3.And(z3.Not(ok2), u.e > I64MAX))
         else:
             o.reachable("u64_ok_huge", z3.And(ok2, u.e > I64MAX))
+        flat += [z3.If(ok2, 1, 0), z3.If(ok2, Y2, 0), z3.If(ok2, O2, 0), z3.If(ok2, tsec2, 0), z3.If(ok2, tfrac2, 0)]
         o.claim("visit_u64_ok_iff_representable", ok2 == z3.And(day2 >= LO, day2 <= HI))
         o.claim("visit_u64_instant", z3.Implies(ok2, z3.And(dayno(Y2, O2) == day2, tsec2 == s2 % DAY, tfrac2 == sub2 * (G // per))))
         # --- serialize: any non-leap UTC date-time given by (year, ordinal, second of day, fraction)
@@ -114,6 +116,11 @@ def _module(mod, unit_name, per, naive):
         w1 = o.call_named(rf"^{path}_option::serialize$", o.ref(some), OpaqueV("serializer"), name="serialize_some")
         w0 = o.call_named(rf"^{path}_option::serialize$", o.ref(none), OpaqueV("serializer"), name="serialize_none")
         o.no_panic("no_panic_opt")
+        def wr(w):
+            okw = w.disc == 0
+            c = w.payload[0][0]
+            return [z3.If(okw, 1, 0), z3.If(okw, c.fields[0].e, 0), z3.If(okw, c.fields[1].e, 0)]
+        o.flat = flat + wr(w) + wr(w1) + wr(w0)
         o.claim("option_none", z3.And(w0.disc == 0, w0.payload[0][0].fields[0].e == 1))
         o.claim("option_some", z3.Implies(w1.disc == 0, z3.And(w1.payload[0][0].fields[0].e == 2, w1.payload[0][0].fields[1].e == exact)))
         if per == G:
